@@ -34,3 +34,16 @@ impl Packet
         self.ticket_result
     }
 }
+
+#[cfg(feature = "verif")]
+impl crate::verif_shim::Describe for Packet
+{
+    fn verif_describe(&self) -> String
+    {
+        match &self.ticket_result
+        {
+            Ok(ticket) => ticket.human_readable(),
+            Err(PacketError::Cancel) => "cancel".to_string(),
+        }
+    }
+}
